@@ -7,6 +7,8 @@ import (
 	"fmt"
 	"net/http"
 	"net/http/httptest"
+	"os"
+	"path/filepath"
 	"runtime"
 	"strings"
 	"sync"
@@ -702,10 +704,14 @@ func CtxCancelPending(res *fw.Result, seed int64) error {
 // writes must not count as signs of life).  The pending call must return with an error within a bounded
 // time and, once the link works again, new calls must be served.
 func SilentStall(d *fw.Driver, res *fw.Result, seed int64) error {
-	for i, mode := range []string{"no-pings", "poller", "big-write"} {
+	for i, mode := range []string{"no-pings", "poller", "big-write", "big-write-unread", "big-write-midframe"} {
 		T := 150 * time.Millisecond
-		if mode == "big-write" {
+		bigWrite := strings.HasPrefix(mode, "big-write")
+		if bigWrite {
 			T = time.Second // long enough for the 48 MiB request to be marshalled and its write to be under way
+		}
+		if mode == "big-write-unread" {
+			T = 2500 * time.Millisecond // … and for one more message to arrive while the loop is inside that write
 		}
 		opts := []jsonrpc.Option{jsonrpc.WithTimeout(T)}
 		if mode == "no-pings" {
@@ -713,7 +719,14 @@ func SilentStall(d *fw.Driver, res *fw.Result, seed int64) error {
 		} else {
 			opts = append(opts, jsonrpc.WithPingInterval(T/5))
 		}
-		run, closer, cancel, err := newRunner(seed+int64(i)*7+3, 0, true, opts...)
+		srvPing := 4 * time.Millisecond
+		if mode == "big-write-unread" {
+			// a realistic server: with a ping every 4 ms, hundreds of pings are queued in the client's read buffer by
+			// the time the link dies, and each costs the reader a second (the pong cannot be written while the writer
+			// holds the connection) before it reaches the read whose deadline can expire
+			srvPing = 2 * time.Second
+		}
+		run, closer, cancel, err := newRunnerPing(srvPing, seed+int64(i)*7+3, 0, true, opts...)
 		if err != nil {
 			return err
 		}
@@ -722,13 +735,31 @@ func SilentStall(d *fw.Driver, res *fw.Result, seed int64) error {
 		base := nextToks(400)
 		warm := run.Go("count", base, "warm-up")
 		warm.Wait(2 * time.Second)
-		pending := run.Go("block", base+1, "pending-at-stall")
+		pendingKind := "block"
+		var midFault *px.Fault
+		if mode == "big-write-midframe" {
+			// the stall strikes inside the 4 MiB response of the pending call (data frame 1 of the direction: the
+			// warm-up's response was frame 0): the reader is then inside the frame, not between messages
+			pendingKind = "blockbig"
+			midFault = run.E.PX.Arm(pxFault("s2c", 1, "mid", "stall"))
+		}
+		pending := run.Go(pendingKind, base+1, "pending-at-stall")
 		for w := 0; w < 3000 && run.E.H.C.Entered(base+1) == 0; w++ {
 			time.Sleep(time.Millisecond)
 		}
-		if mode == "big-write" {
+		switch mode {
+		case "big-write":
 			run.E.PX.Cut(0, "stall") // silent and no longer reading: writes run into full buffers
-		} else {
+		case "big-write-unread":
+			run.E.PX.Cut(0, "stall-c2s") // first only the client's direction dies; the server can still deliver
+		case "big-write-midframe":
+			run.E.H.C.Release(base + 1)
+			select {
+			case <-midFault.Struck:
+			case <-time.After(5 * time.Second):
+				return fmt.Errorf("silent-stall %s: the fault inside the response never struck", mode)
+			}
+		default:
 			run.E.PX.Cut(0, "blackhole")
 		}
 		stop := make(chan struct{})
@@ -749,7 +780,7 @@ func SilentStall(d *fw.Driver, res *fw.Result, seed int64) error {
 			}()
 		}
 		var big chan error
-		if mode == "big-write" {
+		if bigWrite {
 			// a request far larger than the socket buffers, issued on the silent link: the connection loop is
 			// then inside the write when the silence has to be noticed
 			big = make(chan error, 1)
@@ -759,6 +790,15 @@ func SilentStall(d *fw.Driver, res *fw.Result, seed int64) error {
 				_, err := run.CL.Put(cctx, base+2, strings.Repeat("w", 48<<20))
 				big <- err
 			}()
+		}
+		if mode == "big-write-unread" {
+			// the loop is now inside the write; one more message from the server arrives (the pending call's
+			// response): the reader takes it and waits for the loop to accept it — nobody is reading the socket any
+			// more when, next, the other direction falls silent too
+			time.Sleep(1100 * time.Millisecond)
+			run.E.H.C.Release(base + 1)
+			time.Sleep(150 * time.Millisecond)
+			run.E.PX.Cut(0, "stall")
 		}
 		bound := 5*T + 500*time.Millisecond
 		if big != nil {
@@ -772,11 +812,16 @@ func SilentStall(d *fw.Driver, res *fw.Result, seed int64) error {
 		}
 		if !pending.Wait(bound) {
 			res.Add(fw.Finding{Kind: "monitor", Signature: sig + " pending call never returns", Detail: fmt.Sprintf("a call pending when the peer fell silent had not returned %v later (timeout %v): the stall is not noticed", bound, T), Case: c})
-		} else if pending.Err == nil {
+		} else if pending.Err == nil && !bigWrite {
 			res.Add(fw.Finding{Kind: "monitor", Signature: sig + " pending call succeeded", Detail: "a call pending on a silent link returned a result", Case: c})
 		}
 		close(stop)
 		if !run.Probe(base+50, 4*time.Second) {
+			if dir := os.Getenv("VERIF_STACKS"); dir != "" {
+				buf := make([]byte, 16<<20)
+				buf = buf[:runtime.Stack(buf, true)]
+				os.WriteFile(filepath.Join(dir, "stacks-"+mode+".txt"), buf, 0o644)
+			}
 			res.Add(fw.Finding{Kind: "monitor", Signature: sig + " never heals", Detail: "no call succeeded within 4s although new connections reach the server", Case: c})
 		}
 		run.E.H.C.Release(base + 1)
